@@ -51,7 +51,9 @@ def cases(tier, seed):
         n2, b2 = pairs[(i + 5) % len(pairs)]
         n3, b3 = pairs[(i + 11) % len(pairs)]
         for ki, key in enumerate(keys):
-            modes = ["eager", "jit"] if (tier == "thorough" or ki == 0) else ["eager"]
+            # "jit" = eqx.filter_jit (Python ints stay static); "jaxjit" = jax.jit as jinns.solve does it (integer fields such
+            # as the initial cursors become int32 tracers in the default 32-bit mode)
+            modes = ["eager", "jit", "jaxjit"] if (tier == "thorough" or ki == 0) else ["eager"]
             for mode in modes:
                 base = dict(key=key)
                 cfgs = [
@@ -77,12 +79,12 @@ def cases(tier, seed):
                     ]
                 for cfg in cfgs:
                     cfg.update(base)
-                    if mode == "jit" and cfg["kind"] == "param":
+                    if mode in ("jit", "jaxjit") and cfg["kind"] == "param":
                         # user tables are *static* array fields of DataGeneratorParameter: equinox cannot
                         # compare them across jit calls (upstream limitation, unrelated to C09): jit only
                         # the range-only loader
                         cfg = dict(cfg, user={})
-                    if mode == "jit" and cfg["kind"] == "obs":
+                    if mode in ("jit", "jaxjit") and cfg["kind"] == "obs":
                         cfg = dict(cfg, n_eq=0)  # same limitation for the static observed_eq_params dict
                     out.append(dict(cfg=cfg, alphabet=["G"], depth=None, mode=mode))
     # interleavings of partial draws on PDE generators (separate cursors, shared key)
@@ -111,9 +113,13 @@ def _call(gen, op, mode):
     meth = _OPS[op]
     if mode == "eager":
         return getattr(gen, meth)()
-    f = _JIT.get(meth)
+    f = _JIT.get((meth, mode))
     if f is None:
-        f = _JIT[meth] = eqx.filter_jit(lambda g, meth=meth: getattr(g, meth)())
+        if mode == "jaxjit":
+            import jax
+            f = _JIT[(meth, mode)] = jax.jit(lambda g, meth=meth: getattr(g, meth)())
+        else:
+            f = _JIT[(meth, mode)] = eqx.filter_jit(lambda g, meth=meth: getattr(g, meth)())
     return f(gen)
 
 
